@@ -1,4 +1,4 @@
 ----------------------------- MODULE MC_Listener -----------------------------
 EXTENDS Listener, TLC, Json
-Done == conn = "closed" => PrintT(<<"CASE", ToJson([endpoint |-> endpoint, path |-> path, stage |-> Stages[stage]])>>)
+Done == conn = "closed" => PrintT(<<"CASE", ToJson([endpoint |-> endpoint, path |-> path, stage |-> IF path[Len(path)] \in RpcKinds THEN "rpc" ELSE Stages[stage]])>>)
 =============================================================================
